@@ -53,7 +53,8 @@ Section Ts.
                       | None => Diag "elem" end
                     else do et <- ts_ref f e; Ok (TNullable (TArr et))
                 | _ => Diag "array" end
-            | KdNamed | KdEnum | KdUnion => match nr_at n with GNamed id => Ok (TRef (local_name_of pr id)) | _ => Diag "named" end
+            | KdNamed => match nr_at n with GNamed id => Ok (TRef (inst_name pr id)) | _ => Diag "named" end
+            | KdEnum | KdUnion => match nr_at n with GNamed id => Ok (TRef (local_name_of pr id)) | _ => Diag "named" end
             | KdStruct => match nr_at n with GNamed id => Ok (TRef (struct_ts_name id)) | _ => Diag "struct" end
             end
         end
@@ -84,7 +85,7 @@ Section Ts.
         | KdNamed =>
             match nr_at n, nr_children n with
             | GNamed id, [u] =>
-                let name := local_name_of pr id in
+                let name := inst_name pr id in   (* the instantiations of a generic slice or map are distinct types *)
                 match find_node u nodes with
                 | Some m =>
                     if akind_eqb (nr_kind m) KdBasic && (match nr_bkind m with Some k => kind_is_integer k | None => false end)
